@@ -292,7 +292,12 @@ class IpV6Anonymizer(_BaseIpAnonymizer):
 
 
 def _anonymize_match(anonymizer, match, undo_ip_anon):
-    ip = anonymizer.make_addr(match)
+    try:
+        ip = anonymizer.make_addr(match)
+    except ValueError:
+        # The pattern is more permissive than the address parser (e.g. "fe80:%x")
+        logging.debug("Not a valid address %s, skipping", match)
+        return match
     ip_int = int(ip)
     if not anonymizer.should_anonymize(ip_int):
         logging.debug("Should not anonymize %s, skipping", ip)
